@@ -57,4 +57,17 @@ var plans = map[string]*plan{
 		FloorsThorough: map[string]int64{"c04.decodes": 30000000, "classes": 300},
 		Assumptions:    []string{"the reference decoder's notion of well-formed is MQTT 3.1.1 (plus MQIsdp/3 CONNECT); a CONNECT refused through a ConnackCode error value (identifier policy, protocol level) counts as parsed, not as rejected"},
 	},
+	"C06": {
+		Level: "exploration",
+		Rule: "exhaustive part: every filter of 1..4 levels over {a,b,empty,+,#} (779) is subscribed on a fresh topics.NewMemProvider() and queried with every name of 1..4 (thorough: 1..5) levels over {a,b,empty} x publish QoS 0..2; acceptance must equal filter validity, the answer must equal the MQTT 4.7 matcher with QoS min(pub,sub); Retain/Retained checked with the same relation (all plain names stored at once, and each name alone). " +
+			"history part: random histories (20..200 ops) of Subscribe/re-Subscribe/Unsubscribe(held or not)/invalid filter/Retain/clear over 4 subscribers (pointers, string, int64), 30 filters, 28 names; the full observable state (84 Subscribers queries + 30 Retained queries) is compared with a map model after every operation. " +
+			"distinct = (filter shape, name shape, verdict) for the exhaustive part, (length, #subs, #retained) buckets for histories.",
+		Quick:          []batchSpec{{Test: "TestC06", N: 16, Timeout: 15 * m}},
+		Thorough:       []batchSpec{{Test: "TestC06", N: 32, Timeout: 60 * m}},
+		EvalStats:      []string{"c06.ex.pairs", "c06.ex.retained_pairs", "c06.hist.ops"},
+		Floors:         map[string]int64{"c06.ex.filters": 779, "c06.ex.pairs": 270000, "c06.ex.retained_pairs": 60000, "c06.hist.histories": 1500, "c06.hist.sub_queries": 5000000, "classes": 300},
+		FloorsThorough: map[string]int64{"c06.ex.filters": 779, "c06.ex.pairs": 800000, "c06.hist.histories": 40000, "classes": 300},
+		Exhaustive:     func(r *result) bool { return false },
+		Assumptions:    []string{"spec.Match (MQTT 3.1.1 section 4.7, 20 lines) is the specification; MaxQosAllowed is left at its default 2", "exhaustive only for the stated small scope; the history part is sampling"},
+	},
 }
